@@ -126,7 +126,7 @@ class Isobaric(Canonical[MoveType, CriteriaType], Generic[MoveType, CriteriaType
         if cell_move := self.moves.get("default_cell_move"):
             cell_move.probability = 1 / (len(self.atoms) + 1)
         if displacement_move := self.moves.get("default_displacement_move"):
-            displacement_move.probability = 1 / (1 + 1 / len(self.atoms))
+            displacement_move.probability = len(self.atoms) / (len(self.atoms) + 1)
 
     def validate_simulation(self) -> None:
         """This method also ensures that the cell is saved in the context."""
